@@ -75,6 +75,37 @@ def argparse_combos():
                                     and g("info") is True and g("enable_logging_to_terminal") is True
                                 st = "options are parsed into pattern / assembly|binary / all_matches / return_only_address / macros (in order)"
                             obs.append(simple_ob(f"parse_args:{' '.join(argv[1:]) or 'none'}", PA, "POST", st, ok, P, detail=repr(outcome), witness=" ".join(argv)))
+        # the VALUES are paths: whatever characters they start with or contain (other than a leading '-'), they arrive as given --
+        # nothing is expanded, looked up or split ('@' is how macro names and scoped directories are spelled)
+        for vid, (rule, inp_v, macro_vs) in {
+                "at-prefix": ("@team/rule.yaml", "@in.s", ["@prologue.yaml", "lib.yaml"]),
+                "plus-prefix": ("+rule.yaml", "+in.s", ["+m.yaml"]),
+                "blank-inside": ("my rules/rule 1.yaml", "dump of a.s", ["macro lib/m 1.yaml"]),
+                "equals-comma": ("a=b,c.yaml", "x=y.s", ["k=v.yaml", "a,b.yaml"]),
+                "tilde-glob": ("~/r*.yaml", "~user/?.s", ["*.yaml"]),
+                "unicode": ("régle.yaml", "列表.s", ["макро.yaml"])}.items():
+            for flag in ("-s", "-b"):
+                argv = ["jasm", "-p", rule, flag, inp_v, "--macros"] + macro_vs
+                sys.argv = argv
+                try:
+                    devnull = open(os.devnull, "w")
+                    olderr, sys.stderr = sys.stderr, devnull
+                    try:
+                        ns = J.pargs.parse_args_from_console()
+                    finally:
+                        sys.stderr = olderr
+                        devnull.close()
+                    outcome = ns
+                except SystemExit as e:
+                    outcome = ("exit", e.code)
+                except Exception as e:     # noqa
+                    outcome = ("raised", repr(e))
+                g = lambda a_: getattr(outcome, a_, "<absent>")
+                ok = isinstance(outcome, Namespace) and g("pattern") == rule and g("macros") == macro_vs \
+                    and g("assembly") == (inp_v if flag == "-s" else None) and g("binary") == (None if flag == "-s" else inp_v)
+                obs.append(simple_ob(f"parse_args:values:{vid}:{flag}", PA, "POST",
+                                     f"[{vid}] option values are taken literally (pattern, input and macro paths exactly as typed, in order)",
+                                     ok, P, detail=repr(outcome)[:300], witness=" ".join(argv)))
     finally:
         sys.argv = old
     return obs
